@@ -354,6 +354,35 @@ def r_pure(spec, data):
                 a = float(D.get_alpha(dd)); eff = lo + a * (hi - lo)
                 bad |= abs(eff - min(max(dd, lo), hi)) > 1e-6
         return bad
+    if which == "init_inputs":
+        # real nodes wired as in the config (input name, connected node's name, trainable?, window); init_delays returns an entry for the listed keys
+        import distrax
+        from rex.base import TrainableDist, StaticDist
+        from rex.node import BaseNode
+        cfg = spec["cfg"]
+        vals = {k: 0.031 + 0.017 * i for i, k in enumerate(cfg["delays"])}
+
+        class Me(BaseNode):
+            def init_delays(self, rng=None, graph_state=None):
+                return dict(vals)
+        me = Me("me", rate=10.0)
+        for (iname, oname, trainable, window) in cfg["inputs"]:
+            o = BaseNode.__new__(Me); BaseNode.__init__(o, oname, rate=20.0)
+            dd = TrainableDist.create(delay=0.005, min=0.0, max=0.1) if trainable else StaticDist.create(distrax.Deterministic(loc=0.005))
+            me.connect(o, name=iname, window=window, blocking=False, delay_dist=dd)
+        got = me.init_inputs()
+        bad = False
+        for (iname, oname, trainable, window) in cfg["inputs"]:
+            dd = got[iname].delay_dist
+            if trainable:
+                want = vals.get(iname, 0.005)
+                eff = float(dd.min + dd.alpha * (dd.max - dd.min))
+                ok = abs(eff - want) < 1e-6
+                print(f"input {iname!r} (from node {oname!r}): init_delays = {vals}; effective delay after init_inputs = {eff}, want {want} {'ok' if ok else 'VIOLATED'}")
+                bad |= not ok
+            ok = list(int(v) for v in got[iname].seq) == list(range(-window, 0))
+            bad |= not ok
+        return bad
     if which == "reward_norm":
         import jax.numpy as jnp
         from rex.rl import NormalizeVecReward, NormalizeVec
